@@ -39,6 +39,7 @@ class EnumDef:
     legacy: bool = False  # `exhaustive: x` instead of `exhaustive = x`
     derives: str = ""
     repr: str = ""  # explicit #[repr(..)] on the enum
+    lit_form: str = "hex"  # how discriminants are written: hex | dec | bin | hex_
 
     @property
     def active(self):
@@ -79,21 +80,34 @@ class EnumDef:
                 out.append("    #[cfg(all())]")
             elif c in ("off", "off_doc"):
                 out.append("    #[cfg(any())]")
+            if c == "doc":
+                out.append(f"    /// documented variant {n}")
+                out.append("    #[allow(dead_code)]")
             if n in getattr(self, "implicit", ()):
                 out.append(f"    {n},")
             else:
-                out.append(f"    {n} = {d:#x},")
+                if self.lit_form == "dec":
+                    lit = f"{d}"
+                elif self.lit_form == "bin":
+                    lit = f"{d:#b}"
+                elif self.lit_form == "hex_" and d > 0xffff:
+                    h = f"{d:x}"
+                    h = h.rjust((len(h) + 3) // 4 * 4, "0")
+                    lit = "0x" + "_".join(h[i:i + 4] for i in range(0, len(h), 4))
+                else:
+                    lit = f"{d:#x}"
+                out.append(f"    {n} = {lit},")
         out.append("}")
         return "\n".join(out)
 
     def sig(self):
-        return ("enum", self.bits, tuple((d, c) for (_, d, c) in self.variants), self.exhaustive, self.legacy, self.repr)
+        return ("enum", self.bits, tuple((d, c) for (_, d, c) in self.variants), self.exhaustive, self.legacy, self.repr, self.lit_form)
 
     # ---- rule oracle, property C10 ------------------------------------------------------------
     def rule_valid(self) -> bool:
         n = 1 << self.bits
         cnt = len(self.variants)
-        has_cfg = any(c is not None for (_, _, c) in self.variants)
+        has_cfg = any(c not in (None, "doc") for (_, _, c) in self.variants)
         if not (1 <= self.bits <= 64):
             return False
         if getattr(self, "implicit", ()):
@@ -180,6 +194,7 @@ class Field:
     raw_attr: Optional[str] = None  # verbatim attribute text for ill-formed candidates (e.g. lo > hi)
     doc: Optional[str] = None
     arg_order: str = "ras"  # order of (r)ange, (a)ccess, (s)tride inside the attribute
+    raw_ident: bool = False  # declared as r#<name> (name is a keyword); with_/set_ drop the prefix
 
     @property
     def readable(self):
@@ -248,7 +263,7 @@ class Field:
         return out
 
     def sig(self):
-        return (self.ty.sig(), tuple(self.ranges), self.array, self.access, self.form, self.raw_attr, self.arg_order)
+        return (self.ty.sig(), tuple(self.ranges), self.array, self.access, self.form, self.raw_attr, self.arg_order, self.raw_ident, bool(self.doc))
 
 
 @dataclass
@@ -265,6 +280,7 @@ class Layout:
     derives: str = ""
     const_name: str = "DEF_CONST"  # name of the named-constant default
     trailing_comma: bool = False  # #[bitfield(u32, default = 1,)]
+    vis: str = "pub"  # struct visibility
     debug_first: bool = False  # `debug` written before `default`
 
     @property
@@ -290,7 +306,19 @@ class Layout:
             sep = ":" if self.legacy else " ="
             if self.default[0] == "lit":
                 v = self.default[1]
-                lit = f"{v:#x}" if self.default[2] == "hex" else f"{v}"
+                form = self.default[2]
+                if form == "hex":
+                    lit = f"{v:#x}"
+                elif form == "bin":
+                    lit = f"{v:#b}"
+                elif form == "hex_":
+                    h = f"{v:x}"
+                    h = h.rjust((len(h) + 3) // 4 * 4, "0")
+                    lit = "0x" + "_".join(h[i:i + 4] for i in range(0, len(h), 4))
+                elif form == "oct":
+                    lit = f"{v:#o}"
+                else:
+                    lit = f"{v}"
                 args.append(f"default{sep} {lit}")
             else:
                 v = self.default[1]
@@ -307,12 +335,12 @@ class Layout:
         out.append(f"#[bitfield({', '.join(args)}{',' if self.trailing_comma else ''})]")
         if self.derives:
             out.append(f"#[derive({self.derives})]")
-        out.append(f"pub struct {self.name} {{")
+        out.append(f"{self.vis + ' ' if self.vis else ''}struct {self.name} {{")
         for f in self.fields:
             if f.doc:
                 out.append(f"    /// {f.doc}")
             out.append(f"    {f.attr(self.legacy)}")
-            out.append(f"    {f.name}: {f.field_ty()},")
+            out.append(f"    {'r#' if f.raw_ident else ''}{f.name}: {f.field_ty()},")
         out.append("}")
         return "\n".join(out)
 
